@@ -311,7 +311,7 @@ class Analysis:
             if o in seen:
                 continue
             seen.add(o)
-            rec.add(o.label if o.kind in ("SRC", "GS", "glob") else o.kind)
+            rec.add(o.label if o.kind in ("SRC", "GS", "glob") or (o.kind == "inst" and isinstance(o.key, tuple) and o.key[-1] == "root") else o.kind)
             if o.kind == "SRC":
                 a = Alarm(st, what, "SRC", self.cur.key)
                 if a.key() not in self.alarms and os.environ.get("FRAMES_DEBUG"):
@@ -1306,7 +1306,7 @@ class Analysis:
         defaults += [(ko.arg, d) for ko, d in zip(a.kwonlyargs, a.kw_defaults) if d is not None]
         for p, d in defaults:
             if isinstance(d, ast.Constant) and d.value is None:
-                if (args is None) or (p not in set(params[: len(pos)]) and p not in kw):
+                if p not in set(params[: len(pos)]) and p not in kw:
                     self.add(self.V[(callee.key, p)], {self.NONE})
         if fn.is_gen:
             g = self.obj("cont", (callee.key, "gen"), None, f"generator of {fn.qual}")
